@@ -117,15 +117,19 @@ end
 
 /-! ## `default_auto_escape_callback` -/
 
-def stripIgnoredExt (name : String) : List String → String
+/-- `name.strip_suffix(ext)` for the first extension of the list that matches (`break`) -/
+def stripIgnoredExt (name : List Char) : List String → List Char
   | [] => name
-  | ext :: rest => if name.endsWith ext then (name.dropEnd ext.length).toString else stripIgnoredExt name rest
+  | ext :: rest =>
+    if ext.toList.isSuffixOf name then name.take (name.length - ext.toList.length) else stripIgnoredExt name rest
+
+/-- `name.rsplit('.').next()`: the text after the last dot, the whole name if there is none -/
+def lastExt (name : List Char) : List Char := (name.reverse.takeWhile (· != '.')).reverse
 
 def autoEscapeOfName (name : String) : Mode :=
-  let n := stripIgnoredExt name Gen.autoEscapeIgnoredExts
-  let ext := (n.splitOn ".").getLast?.getD n
-  if Gen.autoEscapeHtmlExts.contains ext then .html
-  else if Gen.autoEscapeJsonExts.contains ext then .json
+  let ext := lastExt (stripIgnoredExt name.toList Gen.autoEscapeIgnoredExts)
+  if Gen.autoEscapeHtmlExts.any (·.toList == ext) then .html
+  else if Gen.autoEscapeJsonExts.any (·.toList == ext) then .json
   else .none
 
 /-- `derive_auto_escape(value, initial_auto_escape)` -/
